@@ -1,4 +1,4 @@
-import Crem.Properties.C01
+import Crem.Properties.C02
 import Crem.Proofs.CatchmentSums
 /-!
 # C11 — aggregates are consistent: total = sum of unit shares; total N = PN + DN
@@ -7,6 +7,18 @@ Consequences of the central invariant `Canon` (C01), exact in ℚ, for every dat
 `InitConsistent` / `KeysDistinct`, stated for canonical states and for every state reachable by a
 conformant history (`run D txs`, C01).  The sum ranges over the planning units of the dataset
 (`D.sed0`'s ids; `InitConsistent` says the three pollutant variables carry the same ids).
+
+`aggregates_consistent` goes through the canonical form and therefore speaks about conformant histories.  The
+three clauses need much less: `aggregates_consistent_any_history` proves them after ANY sequence of single interface
+calls (`RawOp`, `runRaw`: Properties/C02.lean) — proposals never completed, `revert;revert`, `accept` of stale
+commands, … — from the raw-operation invariant `SumInv` (Proofs/SumInv.lean), under `UnitsOK D` only (unit ids
+distinct, same ids in the three pollutant variables, every action's unit exists; implied by `InitConsistent D`),
+without `KeysDistinct` and without any consistency of the attribute records.
+
+What the theorems do NOT say: they are exact in ℚ, where re-rounding an on-grid total is the identity.  That the
+float code's incremental `RoundFloat(total + (new − old))` stays ON the grid value over long histories (no drift)
+is the arithmetic abstraction of DESIGN 3.1; it is sampled by the walks (incl. the long ones of the thorough tier),
+not proved.
 
 The output side (`MakeEncodeable` / `SolutionBuilder` copies, `GET /api/v1/model`) is decided by the
 correspondence suites that re-sum the written numbers; it is not a statement about this model.
@@ -59,6 +71,33 @@ theorem aggregates_consistent {D : Data} (hI : InitConsistent D) (hK : KeysDisti
   have hc := canon_of_history hI hK txs
   ⟨total_eq_sum hI hc, tn_eq_pn_plus_dn_unit hI hc, tn_eq_pn_plus_dn hI hc⟩
 
+/-- **after any operation history**: whatever single calls of the model interface were made, in whatever order
+(API misuse included), each total equals the sum of its planning-unit values, total nitrogen equals particulate
+plus dissolved nitrogen in every unit and for the catchment, and every total lies on its reporting grid -/
+theorem aggregates_consistent_any_history {D : Data} (hU : UnitsOK D) (ops : List RawOp) :
+    (∀ v, total (runRaw D ops) v = unitSum D (runRaw D ops) v) ∧
+    (∀ p, unitVal (runRaw D ops) .tn p = unitVal (runRaw D ops) .pn p + unitVal (runRaw D ops) .dn p) ∧
+    total (runRaw D ops) .tn = total (runRaw D ops) .pn + total (runRaw D ops) .dn ∧
+    (∀ v, OnGrid (reportingPrecision v) (total (runRaw D ops) v)) := by
+  have h := sumInv_of_any_history hU ops
+  have h1 : ∀ v, total (runRaw D ops) v = unitSum D (runRaw D ops) v := h.total_eq_unitSum hU
+  refine ⟨h1, h.unitTN, ?_, h.total_onGrid⟩
+  rw [h1 .tn, h1 .pn, h1 .dn]
+  unfold unitSum
+  rw [← sum_map_add]
+  congr 1
+  apply List.map_congr_left
+  intro p _
+  exact h.unitTN p
+
+/-- in particular for every dataset the conformant theorems cover -/
+theorem aggregates_consistent_any_history_of_initConsistent {D : Data} (hI : InitConsistent D) (ops : List RawOp) :
+    (∀ v, total (runRaw D ops) v = unitSum D (runRaw D ops) v) ∧
+    (∀ p, unitVal (runRaw D ops) .tn p = unitVal (runRaw D ops) .pn p + unitVal (runRaw D ops) .dn p) ∧
+    total (runRaw D ops) .tn = total (runRaw D ops) .pn + total (runRaw D ops) .dn ∧
+    (∀ v, OnGrid (reportingPrecision v) (total (runRaw D ops) v)) :=
+  aggregates_consistent_any_history (unitsOK_of_initConsistent hI) ops
+
 /-- every reported number of a reachable state lies on its reporting grid (10⁻³ t, 10⁻² $) -/
 theorem totals_on_grid {D : Data} (hI : InitConsistent D) (hK : KeysDistinct D.acts) (txs : List Tx) :
     OnGrid 3 (total (run D txs) .sed) ∧ OnGrid 3 (total (run D txs) .pn) ∧
@@ -87,5 +126,19 @@ example : InitConsistent exData ∧ KeysDistinct exData.acts := by decide +kerne
 
 example : total exS .tn = unitSum exData exS .tn ∧ total exS .tn = total exS .pn + total exS .dn ∧
     total exS .tn ≠ 0 ∧ unitVal exS .tn 1 ≠ unitVal exS .tn 2 := by decide +kernel
+
+/-- the raw theorem's hypothesis is satisfiable beyond the conformant theorems' reach: `exBad` (C01) violates
+`InitConsistent`, its misuse history below leaves flags and values separated, and the aggregates still hold -/
+example : unitsOK exBad = true ∧ ¬ InitConsistent exBad := by decide +kernel
+
+example :
+    let s := runRaw exBad [.propose 0, .propose 1, .accept, .revert, .revert, .propose 0, .accept, .accept]
+    total s .sed = unitSum exBad s .sed ∧ total s .sed ≠ total (init exBad) .sed ∧
+    total s .tn = total s .pn + total s .dn := by decide +kernel
+
+/-- … and on the C01 dataset after the misuse history of C02 -/
+example : total exMisuse .tn = unitSum exData exMisuse .tn ∧ total exMisuse .tn = total exMisuse .pn + total exMisuse .dn ∧
+    unitVal exMisuse .tn 1 = unitVal exMisuse .pn 1 + unitVal exMisuse .dn 1 ∧ total exMisuse .tn ≠ total (init exData) .tn := by
+  decide +kernel
 
 end Crem.Catchment
